@@ -38,12 +38,17 @@ NextStatus(cur, ev) ==
     [] cur = "BEGIN" /\ ev = "TIMEOUT" -> "BEGIN_ROLLBACK"
     [] cur = "BEGIN_FAILURE" /\ ev = "FAIL" -> "FAILURE"
     [] cur = "BEGIN_ROLLBACK" /\ ev \in {"RB", "FAIL"} -> "ROLLBACK"
+    \* between two BitXHubs: the other hub's begin-failure / rollback notice ends a transaction that is still BEGIN
+    \* (a notice that finds the transaction already begin-failed / timed out leads where C04 lets those states go)
+    [] cur \in {"BEGIN", "BEGIN_FAILURE"} /\ ev = "NBF" -> "FAILURE"
+    [] cur \in {"BEGIN", "BEGIN_ROLLBACK"} /\ ev = "NRB" -> "ROLLBACK"
     [] OTHER -> "NONE"            \* no such transition
 
 GInit == [ acc |-> <<>>,      \* <<src,dst>> -> highest accepted request index
            rcp |-> <<>>,      \* <<src,dst>> -> highest finalised receipt index
            st  |-> <<>>,      \* id -> status of a one-to-one transaction
            exp |-> <<>>,      \* id -> expiry height (only while BEGIN with a finite timeout)
+           bexp |-> <<>>,     \* the same for requests to an unordered ("batch") destination, see BatchExpiring
            grp |-> <<>>,      \* gid -> [state, kids : id -> status, count, exp, src]
            kid |-> <<>>,      \* child id -> gid
            failedOnce |-> {}, \* groups in which a child failed or which timed out
@@ -54,24 +59,81 @@ GInit == [ acc |-> <<>>,      \* <<src,dst>> -> highest accepted request index
 Avail(env, s) == Get(env.svc, s, "none") \in {"available", "freezing"}
 
 (***************************************************************************)
+(* Proofs (C03).  An IBTP is proven by the hub its category points at: a   *)
+(* request by the hub of its source, a receipt by the hub of its           *)
+(* destination.  If that is this hub, the proof bytes must hash to the     *)
+(* value committed in the IBTP and satisfy the master rule of the appchain *)
+(* (t.proofok: the scenarios bind the rule that accepts every proof whose  *)
+(* hash matches).  If it is another BitXHub, the proof is a multi-signature*)
+(* proof: more than (n-1)/3 DISTINCT REGISTERED validators of that hub must*)
+(* have signed THIS ibtp and the status carried in the proof.  A signature *)
+(* is [who, over]: over = "this" iff it covers exactly this ibtp + status. *)
+(***************************************************************************)
+RelayAvail(env, b) == b \in DOMAIN env.relay /\ env.relay[b].st \in {"available", "freezing"}
+MsThreshold(n) == IF n = 0 THEN 0 ELSE (n - 1) \div 3
+MsSigners(r, sigs) == {sigs[i].who : i \in {j \in 1..Len(sigs) : sigs[j].over = "this"}} \cap r.vals
+MsOK(r, sigs) == Cardinality(MsSigners(r, sigs)) > MsThreshold(r.n)
+Prover(t) == IF t.typ = "REQ" THEN t.srcBxh ELSE t.dstBxh
+\* the appchain an IBTP has to be proven for, and the rule currently bound to it ("" if none: never registered, logged
+\* out, or its master rule is being replaced; while it is being replaced the old rule is "unbinding")
+ProverChain(t) == IF t.typ = "REQ" THEN t.srcChain ELSE t.dstChain
+RuleOf(env, c) == IF c \in DOMAIN env.rule THEN env.rule[c] ELSE [bound |-> "", unbinding |-> "", cert |-> ""]
+\* does the proof satisfy that rule?  "happy" accepts every proof; the simplified Fabric rule wants an artifact of the
+\* broker chaincode for exactly this index and call, endorsed (valid signature) by the certificate registered as the
+\* appchain's trust root; the full Fabric rule is never satisfied by the proofs of the scenarios
+RuleOK(rule, cert, t) ==
+  CASE rule = "happy" -> TRUE
+    [] rule = "simfabric" -> /\ t.art.kind = "fabric" /\ t.art.idx = t.idx /\ t.art.cc = "broker" /\ t.art.content
+                             /\ t.art.sigok /\ t.art.signer = cert /\ cert # ""
+    [] OTHER -> FALSE
+\* strict: the rule that is bound; lenient (used to judge an ACCEPTED ibtp): also the rule that is just being unbound
+LocalProofOK(env, t, lenient) ==
+  LET r == RuleOf(env, ProverChain(t)) IN
+  /\ t.hashok
+  /\ \/ (r.bound # "" /\ RuleOK(r.bound, r.cert, t))
+     \/ (lenient /\ r.unbinding # "" /\ RuleOK(r.unbinding, r.cert, t))
+ProofOKx(env, t, lenient) ==
+  IF Prover(t) = env.bxh THEN LocalProofOK(env, t, lenient)
+  ELSE t.hashok /\ t.ms /\ Prover(t) \in DOMAIN env.relay /\ MsOK(env.relay[Prover(t)], t.sigs)
+ProofOK(env, t) == ProofOKx(env, t, FALSE)
+ProofAcceptable(env, t) == ProofOKx(env, t, TRUE)
+
+(***************************************************************************)
 (* Acceptance rule                                                         *)
 (***************************************************************************)
-DestOK(env, t) ==
-  IF t.dstLocal THEN Avail(env, t.dst) ELSE FALSE      \* no other BitXHub is registered in the scenarios
-IsBatchDst(env, t) == t.dstLocal /\ t.dst \in env.unordered /\ Avail(env, t.dst)
+XH(t) == t.srcBxh # t.dstBxh                   \* a transaction between two BitXHubs
+Seen(g, id) == id \in DOMAIN g.st \/ id \in DOMAIN g.kid
+\* the other hub's notice about a request this hub has accepted: the same request again, carrying that hub's
+\* BEGIN_FAILURE / BEGIN_ROLLBACK status
+IsNotice(g, t) == t.typ = "REQ" /\ XH(t) /\ Seen(g, t.id) /\ t.notice \in {"BF", "RB"}
+NoticeEv(t) == IF t.notice = "BF" THEN "NBF" ELSE "NRB"
 
-ShouldAcceptReq(g, env, t) ==
-  /\ t.proofok
-  /\ t.srcLocal /\ Avail(env, t.src)
-  /\ (IsBatchDst(env, t) \/ t.idx = Get(g.acc, <<t.src, t.dst>>, 0) + 1)
-  /\ (t.gid # "" => (t.id \notin DOMAIN g.kid))
+DestOK(env, t) ==
+  IF t.dstLocal THEN Avail(env, t.dst) ELSE RelayAvail(env, t.dstBxh)
+IsBatchDst(env, t) == t.dstLocal /\ t.dst \in env.unordered /\ Avail(env, t.dst)
+SourceOK(env, t) == IF t.srcLocal THEN Avail(env, t.src) ELSE t.dstLocal /\ RelayAvail(env, t.srcBxh)
 
 CurStatus(g, id) == IF id \in DOMAIN g.st THEN g.st[id]
                     ELSE IF id \in DOMAIN g.kid THEN g.grp[g.kid[id]].kids[id] ELSE "NONE"
 
+ShouldAcceptNotice(g, env, t) ==
+  /\ ProofOK(env, t)
+  /\ (t.srcLocal \/ t.dstLocal)
+  /\ t.idx = Get(g.rcp, <<t.src, t.dst>>, 0) + 1
+  /\ t.id \in DOMAIN g.st /\ g.st[t.id] = "BEGIN"    \* (NextStatus tolerates more; only this is expected)
+
+ShouldAcceptReq(g, env, t) ==
+  IF IsNotice(g, t) THEN ShouldAcceptNotice(g, env, t) ELSE
+  /\ ProofOK(env, t)
+  /\ SourceOK(env, t)
+  /\ (IsBatchDst(env, t) \/ t.idx = Get(g.acc, <<t.src, t.dst>>, 0) + 1)
+  /\ (t.gid # "" => (t.id \notin DOMAIN g.kid))
+  /\ (XH(t) => ~Seen(g, t.id))     \* between two hubs a known id is only ever a notice
+
 ShouldAcceptRcpt(g, env, t) ==
-  /\ t.proofok
-  /\ t.dst \in DOMAIN env.svc        \* a receipt is proven against the rule of the destination appchain, which must exist
+  /\ ProofOK(env, t)
+  /\ (t.srcLocal \/ t.dstLocal)
+  /\ (Prover(t) = env.bxh => t.dst \in DOMAIN env.svc)   \* proven against the rule of the destination appchain, which must exist
   /\ (t.id \in DOMAIN g.st \/ t.id \in DOMAIN g.kid)
   /\ t.idx = Get(g.rcp, <<t.src, t.dst>>, 0) + 1
   /\ IF t.id \in DOMAIN g.st THEN NextStatus(g.st[t.id], t.typ) # "NONE"
@@ -88,7 +150,8 @@ Expiry(h, T) == IF T > 0 THEN h + T ELSE 0
 AcceptReq(g, env, t, bf) ==
   [g EXCEPT !.acc = Put(@, <<t.src, t.dst>>, IF IsBatchDst(env, t) THEN Get(@, <<t.src, t.dst>>, 0) + 1 ELSE t.idx),
             !.st  = Put(@, t.id, IF bf THEN "BEGIN_FAILURE" ELSE "BEGIN"),
-            !.exp = IF ~bf /\ Expiry(env.h, t.T) > 0 /\ t.dstChain # env.bxh THEN Put(@, t.id, Expiry(env.h, t.T)) ELSE @]
+            !.exp = IF ~bf /\ Expiry(env.h, t.T) > 0 /\ t.dstChain # env.bxh /\ ~IsBatchDst(env, t) THEN Put(@, t.id, Expiry(env.h, t.T)) ELSE Drop(@, t.id),
+            !.bexp = IF ~bf /\ Expiry(env.h, t.T) > 0 /\ IsBatchDst(env, t) THEN Put(@, t.id, Expiry(env.h, t.T)) ELSE Drop(@, t.id)]
 
 \* grouped request: first child creates the group
 AllKids(kids, v) == [k \in DOMAIN kids |-> v]
@@ -104,15 +167,20 @@ AcceptGroupReq(g, env, t, bf) ==
              ELSE IF bf THEN [old EXCEPT !.kids = AllKids(Put(@, t.id, "x"), "BEGIN_FAILURE"), !.state = "BEGIN_FAILURE"]
              ELSE [old EXCEPT !.kids = Put(@, t.id, "BEGIN")]
       gr1 == [gr EXCEPT !.info = Put(@, t.id, [src |-> t.src, dst |-> t.dst, idx |-> t.idx, dstChain |-> t.dstChain])]
-  IN [g EXCEPT !.acc = Put(@, <<t.src, t.dst>>, t.idx),
+  IN [g EXCEPT !.acc = Put(@, <<t.src, t.dst>>, IF IsBatchDst(env, t) THEN Get(@, <<t.src, t.dst>>, 0) + 1 ELSE t.idx),
                !.grp = Put(@, gid, gr1), !.kid = Put(@, t.id, gid),
                !.failedOnce = IF gr.state # "BEGIN" /\ gr.state # "SUCCESS" THEN @ \cup {gid} ELSE @]
 
-\* receipt of a one-to-one transaction
+\* what the implementation makes of a notice whatever the current status (used to follow it after C04_Step was reported)
+ForceNotice(g, t) ==
+  [g EXCEPT !.st = Put(@, t.id, IF t.notice = "BF" THEN "FAILURE" ELSE "ROLLBACK"),
+            !.rcp = Put(@, <<t.src, t.dst>>, t.idx),
+            !.exp = Drop(@, t.id), !.bexp = Drop(@, t.id)]
+\* receipt of a one-to-one transaction (a notice between two hubs is AcceptRcpt(g, [t EXCEPT !.typ = NoticeEv(t)]))
 AcceptRcpt(g, t) ==
   [g EXCEPT !.st = Put(@, t.id, NextStatus(g.st[t.id], t.typ)),
             !.rcp = Put(@, <<t.src, t.dst>>, t.idx),
-            !.exp = Drop(@, t.id)]
+            !.exp = Drop(@, t.id), !.bexp = Drop(@, t.id)]
 
 \* receipt of a group child: a failure receipt while the group is BEGIN fails the whole group at once; otherwise
 \* the child moves by the status machine and the group follows when all declared children agree
@@ -141,6 +209,11 @@ AcceptGroupRcpt(g, t) ==
 (* End of block h: expiry                                                  *)
 (***************************************************************************)
 ExpiredIds(g, h)  == {id \in DOMAIN g.exp : g.exp[id] = h /\ g.st[id] = "BEGIN"}
+\* requests to an unordered destination whose timeout height is h: C06 wants them to expire like any other request;
+\* the trace spec lets the observation say whether they did (Fire) and reports C06_FiresAt for those that did not
+BatchExpiring(g, h) == {id \in DOMAIN g.bexp : g.bexp[id] = h /\ g.st[id] = "BEGIN"}
+Fire(g, ids, h) == [g EXCEPT !.exp = [id \in DOMAIN g.exp \cup ids |-> IF id \in ids THEN h ELSE g.exp[id]],
+                             !.bexp = [id \in DOMAIN g.bexp \ ids |-> g.bexp[id]]]
 ExpiredGrps(g, h) == {gid \in DOMAIN g.grp : g.grp[gid].exp = h /\ g.grp[gid].state = "BEGIN"}
 EndBlock(g, h) ==
   [g EXCEPT !.st  = [id \in DOMAIN g.st |-> IF id \in ExpiredIds(g, h) THEN "BEGIN_ROLLBACK" ELSE g.st[id]],
